@@ -979,8 +979,19 @@ func (m *Manager) ChangePassphrase(ns walletdb.ReadWriteBucket, oldPassphrase,
 		if m.IsLocked() {
 			newMasterKey.Zero()
 		} else {
-			saltedPassphrase := append(passphraseSalt[:],
-				newPassphrase...)
+			// The salted passphrase is built in a buffer of its
+			// own: appending an empty passphrase to the salt array
+			// would alias it, and wiping the buffer below would
+			// then wipe the salt that is about to be stored.
+			saltedPassphrase := make(
+				[]byte, 0, len(passphraseSalt)+len(newPassphrase),
+			)
+			saltedPassphrase = append(
+				saltedPassphrase, passphraseSalt[:]...,
+			)
+			saltedPassphrase = append(
+				saltedPassphrase, newPassphrase...,
+			)
 			hashedPassphrase = sha512.Sum512(saltedPassphrase)
 			zero.Bytes(saltedPassphrase)
 		}
